@@ -122,7 +122,7 @@ class C14(XsProp):
         for c, o in zip(cases, impl):
             if c.startswith('xs limits 100000 - - | clone | eval '):
                 ou = o.split(' | ')
-                if len(ou) != 15 or 'PANIC' in o:
+                if len(ou) != 16 or 'PANIC' in o:
                     continue
                 n += 1
                 ref_res, ref_stack, ref_out = ou[2], ou[3], ou[4]
@@ -133,7 +133,7 @@ class C14(XsProp):
                 got_out = 'out:' + out1[4:].replace('-', '') + out2[4:].replace('-', '')
                 want_out = 'out:' + ref_out[4:].replace('-', '')
                 heap = lambda d: field(d, 'heap')
-                if res2 != 'ok' or stack2 != ref_stack or got_out != want_out or heap(ou[13]) != heap(ou[14]):
+                if res2 != 'ok' or stack2 != ref_stack or got_out != want_out or heap(ou[13]) != heap(ou[15]):
                     fails.append(('case: %s\nunlimited: %s %s %s\nstopped-and-resumed: %s then %s %s %s' % (
                         c, ref_res, ref_stack, want_out, lim_res, res2, stack2, got_out),
                         'a program stopped by the instruction limit and resumed after raising it does not end like the unlimited run'))
